@@ -206,7 +206,7 @@ def run_tone(drv, case):
         fails.append(Fail("half-gain", f"tone at {bw} MHz: output/input amplitude "
                                        f"{np.max(np.abs(out)) / np.max(np.abs(x))} (n={n})"))
     div = None
-    if drv is not None and n <= MAX_N:
+    if drv is not None and n <= 700:
         m = decl(drv.ask(f"apply dft {enc(bw)} {encl(x)}").split()[1])
         if not allclose(m, out, TOL, 1.0):
             div = f"tone: model differs by {np.max(np.abs(m - out))}"
@@ -589,7 +589,7 @@ def gen_cases(rng, tier):
                     yield dict(k="pulse", bw=bw, eom_bw=eom_bw, eom=eom, amp=amp,
                                det=W16.gen_spec(rng, rng.choice(["const", "ramp", "custom", "blackman"]), d))
     # sequences
-    for _ in range(220 * mult):
+    for _ in range(160 * mult):
         yield gen_seq_case(rng)
 
 
